@@ -31,7 +31,7 @@ ASSUMPTIONS = [
 ]
 TYPES = [1, 2, 3, 4, 5, 6, 7, 8, 9, 0xA, 0xB, 0xC, 0xD, 0xF, 0x10, 0x11, 0x12, 0x13, 0x14, 0x15, 0x16, 0x18, 0x19, 0x1A, 0x1B]
 KINDS = ["var", "var-noobjtype", "domain", "record", "array", "compact", "compact-named"]
-DEFAULTS = ["absent", "zero", "max", "min", "rel0", "rel1", "rel2"]
+DEFAULTS = ["absent", "zero", "max", "min", "rel0", "rel1", "rel2", "min-hex", "minus2-hex"]
 LIMITS = ["none", "low", "high", "both", "low-hex", "high-hex", "both-hex"]
 ACCESS = ["rw", "ro", "wo", "rwr", "rww", "const"]
 NODE_SRC = ["arg", "file", "absent", "both"]
@@ -80,8 +80,10 @@ def make_default(name, t, rot):
         return ("abs", 0)
     if name == "max":
         return ("abs", hi)
-    if name == "min":
+    if name in ("min", "min-hex"):
         return ("abs", lo)
+    if name == "minus2-hex":
+        return ("abs", -2 if lo < 0 else 2)
     return ("rel", min(0x180 + rot, hi - 0x7F))        # rel0/1/2: three textual forms of a $NODEID-relative value
 
 
@@ -108,7 +110,8 @@ def build_doc(kind, t, dname, lname, rot, style_rot, value_mode, access, node_sr
     style = {"number": ("dec", "hex", "HEX")[style_rot % 3], "sub": ("sub", "Sub")[style_rot % 2],
              "subdigits": ("upper", "lower")[(style_rot // 2) % 2], "access_upper": bool((style_rot // 3) % 2),
              "pdo_spelling": "hex" if rot % 4 == 3 else "dec", "limit_hex": lname.endswith("-hex"),
-             "rel_form": {"rel0": 0, "rel1": 1, "rel2": 2 + rot % 2}.get(dname, rot % 4)}
+             "rel_form": {"rel0": 0, "rel1": 1, "rel2": 2 + rot % 2}.get(dname, rot % 4),
+             "value_hex2c": dname.endswith("-hex")}
     if r is not None and lname != "none":
         lo, hi = r
         if lname.startswith(("low", "both")):
